@@ -5,6 +5,7 @@ import random
 import apicheck as A
 import htmlobs as HO
 from gen_docx import DocGen, el
+from gen_numbering import numbering_noise
 
 BLOCKS = {"h1", "h2", "h3", "h4", "h5", "h6", "p", "li", "ul", "ol"}
 
@@ -64,6 +65,10 @@ def list_case(seed):
     mech = rng.choice(["numpr", "numpr", "style", "link"])
     paras, items = [], []
     feats = set()
+    # numbering.xml as Word writes it (level decoration, w:lvlOverride, restarted twins 6 / 7 of the nums 1 / 2): drawn from a
+    # generator of its own so that the paragraphs of a seed stay what they were
+    nrng = random.Random(seed * 31 + 7)
+    noisy = nrng.random() < 0.6
     for _ in range(rng.randint(1, 9)):
         r = rng.random()
         txt = el("w:r", [], [el("w:t", [], [g.word(4)])])
@@ -88,6 +93,8 @@ def list_case(seed):
                     feats.add("link-two-hops")
             else:
                 num = "1" if ordered else "2"
+                if noisy and nrng.random() < 0.4:
+                    num = "6" if ordered else "7"      # the same definition through a w:num that only adds level overrides
             numpr = el("w:numPr", [], [el("w:ilvl", [("w:val", str(d - 1))]), el("w:numId", [("w:val", num)])])
             how = rng.random()
             if mech == "style" and how < 0.6:
@@ -116,6 +123,8 @@ def list_case(seed):
         el("w:num", [("w:numId", "1")], [el("w:abstractNumId", [("w:val", "0")])]),
         el("w:num", [("w:numId", "2")], [el("w:abstractNumId", [("w:val", "1")])]),
         el("w:num", [("w:numId", "3")], [el("w:abstractNumId", [("w:val", "2")])])])
+    if noisy:
+        feats.update(numbering_noise(nrng, numbering, 0.5, {"1": "6", "2": "7"}))
     styles = el("w:styles", [], [el("w:style", [("w:type", "paragraph"), ("w:styleId", "HN%d" % n)], [el("w:name", [("w:val", rng.choice(["heading %d", "Heading %d", "HEADING %d"]) % n)])]) for n in range(1, 7)] +
                 [el("w:style", [("w:type", "paragraph"), ("w:styleId", "Heading%d" % n)], []) for n in range(1, 7)] +
                 [el("w:style", [("w:type", "paragraph"), ("w:styleId", "LS%s%d" % (t, i))], [el("w:name", [("w:val", "List %s %d" % (t, i))])]) for t in "ob" for i in range(6)] +
@@ -163,13 +172,14 @@ def run(out, tier, seed, model_ok):
     run_ = A.ApiRun(out, "C08", model_ok, project, observers=[blocks_spec], name="lists")
     run_.run(cs, nontrivial=lambda c, r: sum(1 for it in c["items"] if it[0] == "li") >= 2)
     # general documents with the default style map only
-    cs2 = A.gen_cases(seed + 5, n // 3, dict(style_map=0.0, p_numbering=0.5, p_pstyle=0.6, p_embedded_map=0.0), options={}, tag="c08g-")
+    cs2 = A.gen_cases(seed + 5, n // 3, dict(style_map=0.0, p_numbering=0.5, p_pstyle=0.6, p_embedded_map=0.0, p_num_noise=0.6), options={}, tag="c08g-")
     for c in cs2:
         c["options"] = {k: v for k, v in c["options"].items() if k in ("idPrefix", "ignoreEmpty")}
     run2 = A.ApiRun(out, "C08", model_ok, project, name="default-map")
     run2.run(cs2, nontrivial=lambda c, r: "numpr" in c["features"])
     out.rule = ("sequences of paragraphs (in the body, in a table cell, in a footnote) with heading styles by id and by name in any letter case, unknown/no style, and list "
-                "membership at levels 1-5 with arbitrary jumps and ordered/bulleted alternation, numbering given directly or through a numStyleLink; observation = the "
+                "membership at levels 1-5 with arbitrary jumps and ordered/bulleted alternation, numbering given directly or through a numStyleLink, numbering.xml plain or decorated the way Word writes it (level properties that do not decide the kind, "
+                "w:lvlOverride with w:startOverride and/or a w:lvl of the same format, restarted twin w:num elements); observation = the "
                 "nesting skeleton of h1-h6/p/li/ul/ol in the output, compared with an independent stack-machine specification and with the Lean model (C08_lists_nest); plus "
                 "general documents under the default map; non-trivial = at least two list items")
     out.extra["features"] = run_.stats
